@@ -110,6 +110,45 @@ def run_kani_sets(prop, cfg, tier, scratch, ledger, notes, bounded, replay_info)
     return time.time() - t0
 
 
+def run_witnesses(cfg, scratch, ledger):
+    """Witness inputs (vf/witness/*.rs): concrete inputs run on the real crate built from REPO.  Each #[test] carries an
+    `/// OBL <label>` line; a failing test marks that obligation failed with the panic text as the replayed counterexample."""
+    files = cfg.get("witness", [])
+    if not files:
+        return 0.0
+    t0 = time.time()
+    dst = os.path.join(scratch, "witness")
+    subprocess.run(["rsync", "-a", "--exclude", "/target", "--exclude", "/.git", "--exclude", "/data", "--exclude", "/js",
+                    "--exclude", "/fuzz", REPO.rstrip("/") + "/", dst + "/"], check=True)
+    env = dict(os.environ)
+    env["CARGO_NET_OFFLINE"] = "true"
+    for fn in files:
+        text = open(os.path.join(VF, "witness", fn)).read()
+        labels = dict((m.group(2), m.group(1)) for m in re.finditer(r"/// OBL (\S+)\n#\[test\]\nfn (\w+)", text))
+        tname = "vf_witness_" + os.path.splitext(fn)[0]
+        with open(os.path.join(dst, "tests", tname + ".rs"), "w") as f:
+            f.write(text)
+        try:
+            p = subprocess.run(["cargo", "test", "--offline", "--test", tname, "--", "--test-threads", "1"], cwd=dst,
+                               capture_output=True, text=True, env=env, timeout=3600)
+            out = p.stdout + p.stderr
+        except subprocess.TimeoutExpired:
+            out = "timeout"
+        seen = dict((m.group(1), m.group(2)) for m in re.finditer(r"^test (\w+) \.\.\. (ok|FAILED)", out, re.M))
+        for test, lab in labels.items():
+            entry = dict(tool="native replay (cargo test on the real crate)", tag="W", time=0, harness="%s::%s" % (fn, test), witness=fn, test=test)
+            if test not in seen:
+                entry.update(status="undecided", msg="witness did not run (does not compile against the current tree?):\n" + "\n".join(
+                    l for l in out.split("\n") if l.startswith("error"))[:1200])
+            elif seen[test] == "ok":
+                entry.update(status="discharged", msg="")
+            else:
+                m = re.search(r"---- %s stdout ----\n(.*?)(?=\n---- |\nfailures:)" % test, out, re.S)
+                entry.update(status="failed", msg="witness input fails on the real code: " + (m.group(1).strip() if m else "")[:1200])
+            ledger[lab] = entry
+    return time.time() - t0
+
+
 def kani_counterexample(label, info, scratch):
     """re-run the failed harness with concrete playback; return (values, text) or (None, why)."""
     rc, out, secs = kani_run.run_harnesses(info["dst"], [info["harness"]], 1800, playback=True)
@@ -201,7 +240,9 @@ def main():
             unit_names += list(cfg.get("verus_thorough", []))
         with cf.ThreadPoolExecutor(max_workers=4) as exe:
             futs = {exe.submit(run_unit, u, REPO, VF, scratch): u for u in unit_names}
+            wfut = exe.submit(run_witnesses, cfg, scratch, ledger)
             kani_secs = run_kani_sets(pid, cfg, a.tier, scratch, ledger, notes, bounded, replay_info)
+            wfut.result()
             for f in cf.as_completed(futs):
                 units.append(f.result())
         units.sort(key=lambda r: unit_names.index(r.unit))
@@ -244,6 +285,9 @@ def main():
             rec = dict(property=pid, obligation=lab, tool=o.get("tool"), verifier_output=o.get("msg", ""),
                        repo_state=repo_state(), inputs=None, replay_result=None)
             suffix = " no-failing-input-found"
+            if o.get("tag") == "W":
+                rec.update(inputs="see witness file", witness=o.get("witness"), test=o.get("test"), replay_result="reproduced", replay_output=o.get("msg"))
+                suffix = ""
             info = replay_info.get(lab) or twin_for(cfg, lab, replay_info)
             if info:
                 vals, txt = kani_counterexample(lab, info, scratch)
@@ -346,6 +390,16 @@ def write_evidence(pid, cfg, tier, seed, ledger, bounded, units, kf, violations,
 
 def do_replay(pid, path):
     rec = json.load(open(path))
+    if rec.get("witness"):
+        scratch = tempfile.mkdtemp(prefix="vf-replay-")
+        try:
+            led = {}
+            run_witnesses(dict(witness=[rec["witness"]]), scratch, led)
+            o = led.get(rec["obligation"], dict(status="undecided", msg="witness not found"))
+            print("replay of %s on %s: %s\n%s" % (rec["obligation"], repo_state(), o["status"], o.get("msg", "")))
+            return 1 if o["status"] == "failed" else 0
+        finally:
+            shutil.rmtree(scratch, ignore_errors=True)
     if not rec.get("inputs"):
         print("replay file carries no concrete input (no-failing-input-found); failed obligation: %s" % rec["obligation"])
         print(rec.get("verifier_output", ""))
